@@ -6,8 +6,6 @@ package c15
 import (
 	"context"
 	"fmt"
-	"os"
-	"os/exec"
 	"sort"
 	"strconv"
 	"strings"
@@ -633,10 +631,10 @@ type real struct {
 	deadline time.Duration
 }
 
-func newReal() fw.Real {
+func newLocalReal() *real {
 	return &real{clients: map[string]*lobj{}, hist: map[string][]uint64{}, creates: map[string]int{},
 		auto: map[string]string{}, autoRev: map[string]string{}, cur: map[string]uint64{}, evHist: map[string]string{},
-		deadline: 1500 * time.Millisecond}
+		deadline: 400 * time.Millisecond}
 }
 
 func (r *real) Close() {
@@ -1173,16 +1171,13 @@ func (r *real) Exec(line string) (out string) {
 		if w == nil {
 			return "bad-op"
 		}
-		if r.kind == "tx3" && !w.cancelled {
-			// cancelling a v3 transaction watch may kill the process: try it in a child first
-			if msg := childCancel(w.replay, w.key != ""); msg != "" {
-				r.crashed = true
-				w.cancelled = true
-				return msg
-			}
-		}
 		w.cancelled = true
 		w.cancel()
+		if r.kind == "tx3" {
+			// the v3 transaction store's per-watch goroutine may panic (double close) a moment after the cancel:
+			// this executor runs in a worker process (proxy.go); give the panic time to happen before answering
+			time.Sleep(120 * time.Millisecond)
+		}
 		return "ok"
 	case "drain":
 		r.waitQuiet()
@@ -1315,64 +1310,3 @@ func (r *real) multiVal() string {
 	return "ok vals=" + encVals(g.vals)
 }
 
-// childCancel runs "watch, cancel" on a v3 transaction store in a child process and reports a crash.
-func childCancel(replay, perID bool) string {
-	cmd := exec.Command(os.Args[0])
-	cmd.Env = append(os.Environ(), fmt.Sprintf("VERIF_C15_CHILD=tx3cancel:%v:%v", replay, perID))
-	b, _ := cmd.CombinedOutput()
-	s := string(b)
-	switch {
-	case strings.Contains(s, "close of closed channel"):
-		return "panic close-of-closed-channel"
-	case strings.Contains(s, "c15-child-survived"):
-		return ""
-	}
-	return "panic child:" + strings.ReplaceAll(lastLine(s), " ", "_")
-}
-
-func lastLine(s string) string {
-	ls := strings.Split(strings.TrimSpace(s), "\n")
-	return ls[len(ls)-1]
-}
-
-func runChild(spec string) {
-	parts := strings.Split(spec, ":")
-	if len(parts) != 3 || parts[0] != "tx3cancel" {
-		fmt.Println("c15-child-bad-spec")
-		os.Exit(3)
-	}
-	client := test.NewClient()
-	s, err := tx3.NewAtomixStore(client)
-	if err != nil {
-		fmt.Println("c15-child-init", err)
-		os.Exit(3)
-	}
-	tx := &configv3.Transaction{ID: configv3.TransactionID{Target: configv3.Target{ID: "t1", Type: "ty", Version: "1"}}}
-	tx.Key = "ka"
-	if err := s.Create(context.Background(), tx); err != nil {
-		fmt.Println("c15-child-create", err)
-		os.Exit(3)
-	}
-	ctx, cancel := context.WithCancel(context.Background())
-	ch := make(chan configv3.TransactionEvent)
-	var opts []tx3.WatchOption
-	if parts[1] == "true" {
-		opts = append(opts, tx3.WithReplay())
-	}
-	if parts[2] == "true" {
-		opts = append(opts, tx3.WithTransactionID(tx.ID))
-	}
-	if err := s.Watch(ctx, ch, opts...); err != nil {
-		fmt.Println("c15-child-watch", err)
-		os.Exit(3)
-	}
-	go func() {
-		for range ch {
-		}
-	}()
-	time.Sleep(60 * time.Millisecond)
-	cancel()
-	time.Sleep(250 * time.Millisecond)
-	fmt.Println("c15-child-survived")
-	os.Exit(0)
-}
